@@ -85,6 +85,9 @@ func (sfv *seqFunVars) setKeysItem(f slip.Object, s *slip.Scope, args slip.List,
 	if pos < len(args) {
 		slip.ErrorPanic(s, depth, "extra arguments that are not keyword and value pairs")
 	}
+	if 0 <= sfv.end && sfv.end < sfv.start {
+		slip.ErrorPanic(s, depth, "start %d is greater than end %d", sfv.start, sfv.end)
+	}
 }
 
 func (sfv *seqFunVars) setKeysIf(f slip.Object, s *slip.Scope, args slip.List, depth int) {
@@ -142,5 +145,8 @@ func (sfv *seqFunVars) setKeysIf(f slip.Object, s *slip.Scope, args slip.List, d
 	}
 	if pos < len(args) {
 		slip.ErrorPanic(s, depth, "extra arguments that are not keyword and value pairs")
+	}
+	if 0 <= sfv.end && sfv.end < sfv.start {
+		slip.ErrorPanic(s, depth, "start %d is greater than end %d", sfv.start, sfv.end)
 	}
 }
